@@ -59,6 +59,12 @@ pub fn run_mpc(case: &MpcCase, adv: Adversary, cfg: &ExecCfg) -> MpcRun {
 
 /// `override_args`: per party optional (p_eval, p_own, p_out, inputs) replacing the honest arguments (C18).
 pub fn run_mpc_ext(case: &MpcCase, adv: Adversary, cfg: &ExecCfg, override_args: Option<Vec<Option<PartyArgs>>>) -> MpcRun {
+    run_mpc_full(case, adv, cfg, override_args, None)
+}
+
+/// `circuits`: the circuit object each party passes to `mpc` (kept alive by the caller, e.g. to
+/// run it again after changing it in place); default = a fresh clone of `case.circ` per party.
+pub fn run_mpc_full(case: &MpcCase, adv: Adversary, cfg: &ExecCfg, override_args: Option<Vec<Option<PartyArgs>>>, circuits: Option<Vec<std::sync::Arc<garble_lang::register_circuit::Circuit>>>) -> MpcRun {
     let n = case.n();
     let cap = if case.cap == 0 { usize::MAX } else { case.cap };
     let world = World::new(n, cap);
@@ -83,7 +89,10 @@ pub fn run_mpc_ext(case: &MpcCase, adv: Adversary, cfg: &ExecCfg, override_args:
     let mut tasks: Vec<Option<Task<Vec<bool>>>> = vec![];
     for p in 0..n {
         let ch = world.channel(p);
-        let circuit = circuit.clone();
+        let circuit = match &circuits {
+            Some(cs) => cs[p].clone(),
+            None => std::sync::Arc::new(circuit.clone()),
+        };
         let mut args = PartyArgs { inputs: case.inputs[p].clone(), p_eval: case.p_eval, p_own: p, p_out: case.p_out.clone() };
         if let Some(o) = &override_args {
             if let Some(Some(a)) = o.get(p) {
